@@ -319,8 +319,14 @@ impl CapturedScope {
         self.0.get(key).copied()
     }
 
+    #[cfg(not(feature = "verif-hooks"))]
     pub fn iter(&self) -> impl Iterator<Item = (&String, &Value)> {
         self.0.iter()
+    }
+
+    #[cfg(feature = "verif-hooks")]
+    pub fn iter(&self) -> impl Iterator<Item = (&String, &Value)> {
+        crate::verif_hooks::order(self.0.iter().collect()).into_iter()
     }
 
     pub fn as_rc(&self) -> Rc<HashMap<String, Value>> {
